@@ -45,19 +45,19 @@ theorem processBatch_spec {cfg : Cfg} (P : Params α) {den : Key → α} :
       (∀ k, o = some k → P.fails k = true ∧ k ∈ rest.map (·.1) ∧
         ∃ rest', BatchInv cfg den rest' s' ∧ k ∈ rest'.map (·.1)) ∧
       (∀ k, k ∈ s.st.finished → k ∈ s'.st.finished) ∧ s'.st.dependencies = s.st.dependencies ∧
-      (∀ k, k ∈ s'.st.finished → k ∈ s.st.finished ∨ P.fails k = false) := by
+      (∀ k, k ∈ s'.st.finished → k ∈ s.st.finished ∨ P.fails k = false) ∧ LogExt s.log s'.log := by
   intro rest
   induction rest with
   | nil =>
     intro s h
-    exact ⟨s, none, rfl, rfl, fun _ => ⟨h, by simp, by simp⟩, (by intro k hk; cases hk), fun k hk => hk, rfl, fun k hk => Or.inl hk⟩
+    exact ⟨s, none, rfl, rfl, fun _ => ⟨h, by simp, by simp⟩, (by intro k hk; cases hk), fun k hk => hk, rfl, fun k hk => Or.inl hk, LogExt.refl _⟩
   | cons p rest ih =>
     obtain ⟨key, res⟩ := p
     intro s h
     unfold processBatch
     by_cases hf : P.fails key = true
     · simp only [hf, if_true]
-      refine ⟨s, some key, rfl, rfl, (by intro ho; cases ho), ?_, fun k hk => hk, rfl, fun k hk => Or.inl hk⟩
+      refine ⟨s, some key, rfl, rfl, (by intro ho; cases ho), ?_, fun k hk => hk, rfl, fun k hk => Or.inl hk, LogExt.refl _⟩
       intro k hk
       cases hk
       exact ⟨hf, by simp, (key, res) :: rest, h, by simp⟩
@@ -75,7 +75,7 @@ theorem processBatch_spec {cfg : Cfg} (P : Params α) {den : Key → α} :
       have hnd2' := List.nodup_cons.mp hnd2
       have hkpend : key ∉ pendKeys s := fun hk => hnd3 key hk key (by simp) rfl
       have hB : BatchInv cfg den rest { s with st := st', log := s.log ++ [(Ev.posttask key, st')] } := by
-        refine ⟨hinv', ?_, ?_, ?_, h.pendVal, ?_, h.pendNonempty, ?_, ?_, ?_, ?_, ?_, ?_⟩
+        refine ⟨hinv', ?_, ?_, ?_, h.pendVal, ?_, h.pendNonempty, ?_, ?_, ?_, ?_, ?_, ?_, ?_⟩
         · intro d v hv
           rcases hcache d v hv with ⟨rfl, rfl⟩ | hold
           · exact hres
@@ -144,7 +144,24 @@ theorem processBatch_spec {cfg : Cfg} (P : Params α) {den : Key → α} :
           · simp only [List.mem_singleton] at he1
             rw [he1] at hk
             cases hk
-      obtain ⟨s', o, hpb, hpend, hnone, hsome, hmono, hdd, hfok⟩ := ih _ hB
+        · show Ordered (s.log ++ [(Ev.posttask key, st')])
+          apply h.ordered.append
+          intro l1 l2 hl k hk
+          cases l1 with
+          | nil => cases hk
+          | cons e l1' =>
+            have hl' : [(Ev.posttask key, st')] = e :: (l1' ++ l2) := by simpa using hl
+            have he : e = (Ev.posttask key, st') := by
+              have := List.cons.inj hl'; exact this.1.symm
+            have hnil : l1' = [] := by
+              have := (List.cons.inj hl').2
+              exact (List.append_eq_nil_iff.mp this.symm).1
+            subst he; subst hnil
+            have hk' : k = key := by simpa [postKeys] using hk
+            subst hk'
+            rw [preKeys_append]
+            exact List.mem_append_left _ ((h.preIff k).mpr (Or.inl hkrun))
+      obtain ⟨s', o, hpb, hpend, hnone, hsome, hmono, hdd, hfok, hlog⟩ := ih _ hB
       have hfok' : ∀ k, k ∈ s'.st.finished → k ∈ s.st.finished ∨ P.fails k = false := by
         intro k hk
         rcases hfok k hk with h1 | h1
@@ -154,7 +171,9 @@ theorem processBatch_spec {cfg : Cfg} (P : Params α) {den : Key → α} :
           · right; simpa using hf
           · exact Or.inl h2
         · exact Or.inr h1
-      refine ⟨s', o, hpb, hpend, ?_, ?_, ?_, hdd.trans hdeps', hfok'⟩
+      have hlog' : LogExt s.log s'.log :=
+        LogExt.trans ⟨[(Ev.posttask key, st')], rfl, by intro e he; simp only [List.mem_singleton] at he; rw [he]; rfl⟩ hlog
+      refine ⟨s', o, hpb, hpend, ?_, ?_, ?_, hdd.trans hdeps', hfok', hlog'⟩
       · intro ho
         obtain ⟨a, b, c⟩ := hnone ho
         refine ⟨a, ?_, ?_⟩
@@ -204,8 +223,8 @@ theorem iter_spec {cfg : Cfg} (P : Params α) {den : Key → α} (hden : IsDen c
       (o = none → SysInv cfg den s' ∧ s.st.finished.length < s'.st.finished.length) ∧
       (∀ k, o = some k → P.fails k = true ∧ ∃ rest', BatchInv cfg den rest' s' ∧ k ∈ rest'.map (·.1)) ∧
       (∀ k, k ∈ s.st.finished → k ∈ s'.st.finished) ∧ s'.st.dependencies = s.st.dependencies ∧
-      (∀ k, k ∈ s'.st.finished → k ∈ s.st.finished ∨ P.fails k = false) := by
-  obtain ⟨s1, hfire, hinv1, hfin1, hwait1, _, _, hdep1, _, ⟨bs, hbs⟩, hprog⟩ := fire_spec P hden hnw hcs h
+      (∀ k, k ∈ s'.st.finished → k ∈ s.st.finished ∨ P.fails k = false) ∧ LogExt s.log s'.log := by
+  obtain ⟨s1, hfire, hinv1, hfin1, hwait1, _, _, hdep1, _, ⟨bs, hbs⟩, hprog, hlog1⟩ := fire_spec P hden hnw hcs h
   have hpne : s1.pending ≠ [] := by
     by_cases hp : s.pending = []
     · have hrun0 : s.st.running = [] := by
@@ -247,7 +266,7 @@ theorem iter_spec {cfg : Cfg} (P : Params α) {den : Key → α} (hden : IsDen c
       exact hperm.map _
     have hbmem : batch ∈ s1.pending := List.mem_of_getElem? hb
     have hB : BatchInv cfg den batch { s1 with pending := s1.pending.eraseIdx choice } := by
-      refine ⟨hinv1.inv, hinv1.sound, ?_, ?_, ?_, ?_, ?_, hinv1.preNodup, hinv1.preIff, hinv1.postNodup, hinv1.postIff, hinv1.preSnap, hinv1.noFinish⟩
+      refine ⟨hinv1.inv, hinv1.sound, ?_, ?_, ?_, ?_, ?_, hinv1.preNodup, hinv1.preIff, hinv1.postNodup, hinv1.postIff, hinv1.preSnap, hinv1.noFinish, hinv1.ordered⟩
       · have := hinv1.nodup
         simp only [List.map_nil, List.append_nil] at this
         exact hpermK.nodup_iff.mp this
@@ -260,11 +279,11 @@ theorem iter_spec {cfg : Cfg} (P : Params α) {den : Key → α} (hden : IsDen c
         exact hinv1.pendVal p (hperm.mem_iff.mpr (List.mem_append_right _ hp))
       · intro b hb'
         exact hinv1.pendNonempty b (mem_eraseIdx_sub _ _ _ hb')
-    obtain ⟨s', o, hpb, _, hnone, hsome, hmono, hdd, hfok⟩ := processBatch_spec P batch _ hB
+    obtain ⟨s', o, hpb, _, hnone, hsome, hmono, hdd, hfok, hlog2⟩ := processBatch_spec P batch _ hB
     refine ⟨s', o, hpb, ?_, ?_, ?_, hdd.trans hdep1, fun k hk => by
       rcases hfok k hk with h1 | h1
       · exact Or.inl (by rw [← hfin1]; exact h1)
-      · exact Or.inr h1⟩
+      · exact Or.inr h1, LogExt.trans hlog1 hlog2⟩
     · intro ho
       obtain ⟨a, _, c⟩ := hnone ho
       refine ⟨a, ?_⟩
@@ -296,7 +315,7 @@ theorem mainLoop_spec {cfg : Cfg} (P : Params α) {den : Key → α} (hden : IsD
         s.st.finished.length + choices.length ≤ s'.st.finished.length) ∧
       (∀ k, o = .failed k → P.fails k = true ∧ ∃ rest', BatchInv cfg den rest' s' ∧ k ∈ rest'.map (·.1)) ∧
       (∀ k, k ∈ s.st.finished → k ∈ s'.st.finished) ∧ s'.st.dependencies = s.st.dependencies ∧
-      (∀ k, k ∈ s'.st.finished → k ∈ s.st.finished ∨ P.fails k = false) := by
+      (∀ k, k ∈ s'.st.finished → k ∈ s.st.finished ∨ P.fails k = false) ∧ LogExt s.log s'.log := by
   intro choices
   induction choices with
   | nil =>
@@ -305,16 +324,16 @@ theorem mainLoop_spec {cfg : Cfg} (P : Params α) {den : Key → α} (hden : IsD
     unfold mainLoop
     by_cases hl : loopCond s.st = true
     · simp only [hl, if_true]
-      exact ⟨s, .starved, rfl, (by intro ho; cases ho), fun _ => ⟨h, hl, by simp⟩, (by intro k hk; cases hk), fun k hk => hk, rfl, fun k hk => Or.inl hk⟩
+      exact ⟨s, .starved, rfl, (by intro ho; cases ho), fun _ => ⟨h, hl, by simp⟩, (by intro k hk; cases hk), fun k hk => hk, rfl, fun k hk => Or.inl hk, LogExt.refl _⟩
     · simp only [hl]
       have hl' : loopCond s.st = false := by simpa using hl
-      exact ⟨s, .done, rfl, fun _ => ⟨h, hl'⟩, (by intro ho; cases ho), (by intro k hk; cases hk), fun k hk => hk, rfl, fun k hk => Or.inl hk⟩
+      exact ⟨s, .done, rfl, fun _ => ⟨h, hl'⟩, (by intro ho; cases ho), (by intro k hk; cases hk), fun k hk => hk, rfl, fun k hk => Or.inl hk, LogExt.refl _⟩
   | cons c cs ih =>
     intro s h
     unfold mainLoop
     by_cases hl : loopCond s.st = true
     · simp only [hl, if_true]
-      rcases iter_spec P hden hnw hcs rank hrank h hl c with hbad | ⟨s1, o1, hit, hnone, hsome, hmono1, hdd1, hfok1⟩
+      rcases iter_spec P hden hnw hcs rank hrank h hl c with hbad | ⟨s1, o1, hit, hnone, hsome, hmono1, hdd1, hfok1, hlg1⟩
       · left; rw [hbad]
       · rw [hit]
         cases o1 with
@@ -322,17 +341,17 @@ theorem mainLoop_spec {cfg : Cfg} (P : Params α) {den : Key → α} (hden : IsD
           right
           simp only []
           exact ⟨s1, .failed k, rfl, (by intro ho; cases ho), (by intro ho; cases ho),
-            (by intro k' hk'; cases hk'; exact hsome k rfl), hmono1, hdd1, hfok1⟩
+            (by intro k' hk'; cases hk'; exact hsome k rfl), hmono1, hdd1, hfok1, hlg1⟩
         | none =>
           simp only []
           obtain ⟨hinv1, hlt⟩ := hnone rfl
-          rcases ih s1 hinv1 with hbad | ⟨s', o, hml, hdone, hstarved, hfailed, hmono, hdd, hfok⟩
+          rcases ih s1 hinv1 with hbad | ⟨s', o, hml, hdone, hstarved, hfailed, hmono, hdd, hfok, hlg⟩
           · left; exact hbad
           · right
             refine ⟨s', o, hml, hdone, ?_, hfailed, fun k hk => hmono k (hmono1 k hk), hdd.trans hdd1, fun k hk => by
               rcases hfok k hk with h1 | h1
               · exact hfok1 k h1
-              · exact Or.inr h1⟩
+              · exact Or.inr h1, LogExt.trans hlg1 hlg⟩
             intro ho
             obtain ⟨a, b, c⟩ := hstarved ho
             refine ⟨a, b, ?_⟩
@@ -341,6 +360,6 @@ theorem mainLoop_spec {cfg : Cfg} (P : Params α) {den : Key → α} (hden : IsD
     · right
       simp only [hl]
       have hl' : loopCond s.st = false := by simpa using hl
-      exact ⟨s, .done, rfl, fun _ => ⟨h, hl'⟩, (by intro ho; cases ho), (by intro k hk; cases hk), fun k hk => hk, rfl, fun k hk => Or.inl hk⟩
+      exact ⟨s, .done, rfl, fun _ => ⟨h, hl'⟩, (by intro ho; cases ho), (by intro k hk; cases hk), fun k hk => hk, rfl, fun k hk => Or.inl hk, LogExt.refl _⟩
 
 end Dask.Sched
